@@ -513,7 +513,9 @@ def gen28(rng, tier):
                 nm = f[3:] if f.startswith('..\\') else f
                 if rng.random() < 0.2:
                     nm = alower(nm)
-                pre.append({'d': 'C', 'p': ('' if f.startswith('..\\') or not sub else sub + '/') + nm, 'k': 'd'})
+                # now and then a file, not a directory, stands for the name
+                pre.append({'d': 'C', 'p': ('' if f.startswith('..\\') or not sub else sub + '/') + nm,
+                            'k': 'f' if rng.random() < 0.15 else 'd'})
         cfg['dirs'] = fam
     gcwd = list(base)      # where the generator believes the working directory is (a guess, to aim the paths)
 
